@@ -138,6 +138,9 @@ func runFaulted(sc faultScenario, k int, kind string) (obs string, nops int, hit
 	return
 }
 
+// c13CloseErr: the next runs report an error from every Close()
+var c13CloseErr bool
+
 // runFaultedSet plays a session with faults scheduled at several filesystem operation indexes.
 func runFaultedSet(sc faultScenario, fl map[int]string) (obs string, nops int, hits []string, hitIdx []int) {
 	withTempRoot(func(root string) {
@@ -147,6 +150,7 @@ func runFaultedSet(sc faultScenario, fl map[int]string) (obs string, nops int, h
 		}
 		env := newConnEnv(root, sc.aw, 4096)
 		defer env.close()
+		env.rec.closeErr = c13CloseErr
 		for k, kind := range fl {
 			env.rec.faults[k] = kind
 		}
@@ -215,6 +219,18 @@ func c13Stream(o *out, r *rng, thorough bool) {
 				caseLine := fmt.Sprintf("c13 %s %s %s|%s", opTypes(sc.reqs), effectiveKind(kind, hit), strings.ReplaceAll(base, " ", ";"), strings.ReplaceAll(obs, " ", ";"))
 				o.emit(caseLine, "ok", "", fmt.Sprintf("%s:%d:%s", sc.name, k, kind))
 			}
+		}
+		// every Close() reporting an error (after closing): judged like any other I/O error (a generated
+		// image treats a failing Close of a member file as a failed read: correct prefix, then disconnection);
+		// in particular the connection must still be ended by the server and every handle released
+		{
+			c13CloseErr = true
+			obs, _, _, _ := runFaultedSet(sc, map[int]string{})
+			c13CloseErr = false
+			o.count("scenario:" + sc.name)
+			o.count("fault:close-reports-error")
+			caseLine := fmt.Sprintf("c13 %s %s %s|%s", opTypes(sc.reqs), "err", strings.ReplaceAll(base, " ", ";"), strings.ReplaceAll(obs, " ", ";"))
+			o.emit(caseLine, "ok", "", fmt.Sprintf("%s:closeerr", sc.name))
 		}
 		// random pairs of faults: what the first one leaves behind (a retried read, a half-filled buffer,
 		// a fallback path) is where the second one strikes
